@@ -148,6 +148,8 @@ def _show_fmt(f: Obj) -> str:
 
 def _assigned(st: ast.stmt) -> set[str]:
     out = set()
+    if isinstance(st, ast.FunctionDef):
+        return {st.name}            # a local helper binds its own name and nothing else of the enclosing scope
     for n in ast.walk(st):
         if isinstance(n, (ast.Assign, ast.AnnAssign, ast.AugAssign)):
             for t in (n.targets if isinstance(n, ast.Assign) else [n.target]):
@@ -254,6 +256,23 @@ def t1_operator_soundness(ctx: Ctx):
                                 lhs = f'{_show_val(x)} {symb} {_show_val(y)}' if y is not None else f'{symb}({_show_val(x)})'
                                 first_bad[cl] = (f'{lhs} = {_show_val(v)} with operands from {_show_fmt(a)}' + (f' and {_show_fmt(b)}' if b is not None else '') +
                                                  f', but the result format is {_show_fmt(r)}')
+        if name in binary:
+            # unbounded operands (`inf` stands for "no largest finite value"): the bounds of the result are still bounds,
+            # never the NaN of `0 * inf` or `inf - inf`, against which every containment test answers "inside"
+            INF = float('inf')
+            big = 1000
+            for (na, pa), (nb, pb) in itertools.product(((0, INF), (-INF, 0), (-INF, INF)), SHAPES + ((0, INF), (-INF, INF))):
+                for a, b in ((_fmt(na, pa, (False,) * 4), _fmt(nb, pb, (False,) * 4)), (_fmt(nb, pb, (False,) * 4), _fmt(na, pa, (False,) * 4))):
+                    r = _apply(it, fn, sl, call, a, b)
+                    n += 1
+                    lo, hi = r.fields['neg_bound'], r.fields['pos_bound']
+                    sample = lambda f: [v for v in (f.fields['neg_bound'], f.fields['pos_bound'], -big, -1, 0, 1, big) if f.fields['neg_bound'] <= v <= f.fields['pos_bound'] and abs(v) != INF]  # noqa: E731
+                    for x in sample(a):
+                        for y in sample(b):
+                            v = {'+': x + y, '-': x - y, '*': x * y}[symb]
+                            if not (lo <= v <= hi) and CLAUSES[0] not in first_bad:     # a NaN bound fails both comparisons
+                                first_bad[CLAUSES[0]] = (f'{x} {symb} {y} = {v} with operands from [{a.fields["neg_bound"]}, {a.fields["pos_bound"]}] and '
+                                                         f'[{b.fields["neg_bound"]}, {b.fields["pos_bound"]}], but the result is bounded by [{lo}, {hi}]')
         for cl in CLAUSES:
             ctx.check(cl not in first_bad, FMT, fn, f'AbstractFormat.{name}', f'{name}: {cl} of the result covers every exact result',
                       first_bad.get(cl, ''))
@@ -602,6 +621,29 @@ def t5_partial_fit_specials(ctx: Ctx):
                                f'{{{", ".join(x for x, v in zip(flags, sf) if v) or "finite only"}, bounds [-10, 10], quantum 2**-1}}: the image holds {what}, the bound does not')
     ctx.check(bad is None, ANA, builds[0], q, f'the bound of a rounding that only partly fits its scope keeps every special value the image can hold ({n} format pairs)',
               (bad or '') + ' (x + 1 under FP64 for an FP64 x was inferred as a format without NaN and infinities)')
+    # ... and its finite bounds hold the rounded image: a bound of *exact* that is not on the scope's grid rounds to the
+    # grid point beyond it.  The statement choosing the bounds is evaluated with the exact bound on and off the grid.
+    from fractions import Fraction
+    import math as _math
+    chooser = [s for s in walk_no_nested(fn) if isinstance(s, ast.If) and any(isinstance(x, ast.Assign) and norm(x.targets[0]) == 'pos_bound' for x in s.body)]
+    if len(chooser) != 1:
+        raise ShapeError('_bound_if_fits: the statement choosing the finite bounds was not found')
+    bad = None
+    rows = 0
+    for ep, en, ee, pr in product((Fraction(21, 4), Fraction(5)), (Fraction(-21, 4), Fraction(-5)), (-3, -1, 0), (4, 8, 10)):
+        if (ee > -3 and ep.denominator > 2) or (ee > -3 and en.denominator > 2):
+            continue                         # not a member of a format with that quantum
+        exact = Obj('AbstractFormat', prec=pr, exp=ee, pos_bound=ep, neg_bound=en)
+        scope = Obj('AbstractFormat', prec=8, exp=-1, pos_bound=Fraction(10), neg_bound=Fraction(-10))
+        env = {'exact': exact, 'scope_af': scope}
+        Interp({}).run_stmts([chooser[0]], env)
+        rows += 1
+        up = Fraction(_math.ceil(ep * 2), 2)           # where round-up puts ep on the grid of halves
+        dn = Fraction(_math.floor(en * 2), 2)
+        if (env['pos_bound'] < min(up, 10) or env['neg_bound'] > max(dn, -10)) and bad is None:
+            bad = f'exact bounds [{en}, {ep}] with quantum 2**{ee} into a scope with quantum 2**-1: the stated bounds are [{env["neg_bound"]}, {env["pos_bound"]}], the image reaches [{dn}, {up}]'
+    ctx.check(bad is None and rows >= 12, ANA, chooser[0], q, f'the finite bounds of a partly fitting rounding hold the rounded image ({rows} rows, bounds on and off the scope\'s grid)',
+              (bad or 'table shrank') + ' (x + y with x, y in [-0.375, 0.375] under an integer scope: inferred {0, -0}, 0.375 + 0.375 rounds to 1)')
 
 
 def t6_captured_values(ctx: Ctx):
@@ -857,6 +899,10 @@ RULES = [
 from ..selftest import Mutant  # noqa: E402
 
 MUTANTS = [
+    Mutant('zero-bound-times-unbounded-is-nan', FMT, "            return b if b == 0 else a if a == 0 else a * b\n", "            return a * b\n", 'C14.T1',
+           'finding F77 before its repair: {-2} * integers has NaN bounds and is "contained" in every bounded scope'),
+    Mutant('partial-fit-bounds-off-the-grid', ANA, "        if exact.prec > scope_af.prec or exact.exp < scope_af.exp:", "        if exact.prec > scope_af.prec:", 'C14.T5',
+           'finding F76 before its repair: 0.375 + 0.375 under an integer scope'),
     Mutant('difference-fitted-without-the-zero-rule', ANA, "                fitted = self._zero_sum_bound(\n                    e, exact_binop(lhs, rhs, operator.sub,", "                fitted = self._bound_if_fits(\n                    e, exact_binop(lhs, rhs, operator.sub,", 'C14.T9',
            'finding F71 before its repair: x - x under an RTN scope is inferred without -0'),
     Mutant('zero-rule-for-sets-only', ANA, "            else:\n                lacks = not exact.has_neg_zero\n", "            else:\n                lacks = False\n", 'C14.T9'),
@@ -911,7 +957,7 @@ MUTANTS = [
     Mutant('sum-loses-infinity', FMT, "        has_pos_inf = self.has_pos_inf or other.has_pos_inf\n", "        has_pos_inf = self.has_pos_inf and other.has_pos_inf\n", 'C14.T1'),
     Mutant('inf-minus-inf-not-nan', FMT, "            or (self.has_pos_inf and other.has_neg_inf)\n            or (self.has_neg_inf and other.has_pos_inf)\n", "", 'C14.T1'),
     Mutant('difference-bound-wrong-operand', FMT, "        pos_bound = self.pos_bound - other.neg_bound", "        pos_bound = self.pos_bound - other.pos_bound", 'C14.T1'),
-    Mutant('product-lower-bound-tighter-corner', FMT, "        neg_bound = min(self.pos_bound * other.neg_bound, self.neg_bound * other.pos_bound)", "        neg_bound = max(self.pos_bound * other.neg_bound, self.neg_bound * other.pos_bound)", 'C14.T1',
+    Mutant('product-lower-bound-tighter-corner', FMT, "        neg_bound = min(corner(self.pos_bound, other.neg_bound), corner(self.neg_bound, other.pos_bound))", "        neg_bound = max(corner(self.pos_bound, other.neg_bound), corner(self.neg_bound, other.pos_bound))", 'C14.T1',
            'the comment in the source records this very defect: [-1,1] * [-2,1] reaches -2'),
     Mutant('zero-times-inf-not-nan', FMT, "        has_nan = self.has_nan or other.has_nan or inf_out", "        has_nan = self.has_nan or other.has_nan", 'C14.T1'),
     Mutant('negation-keeps-infinities', FMT, "            has_pos_inf=self.has_neg_inf, has_neg_inf=self.has_pos_inf, has_nan=self.has_nan,\n            has_neg_zero=self.has_neg_zero,",
